@@ -19,6 +19,7 @@ func init() {
 			p = "v9"
 		}
 		spaces[p+".perturb"] = func(t string) mck.Space { return perturbSpace(v9, t) }
+		spaces[p+".many"] = func(t string) mck.Space { return manySpace(v9, t) }
 	}
 }
 
@@ -251,5 +252,102 @@ func perturbSpace(v9 bool, tier string) mck.Space {
 			}
 		}
 		c.Sample(descF)
+	}}
+}
+
+// manySpace: the SAME undecodable set inserted N times in a row (N around small powers of two and other
+// plausible limits) - whatever a decoder counts, caps or accumulates per message must not make it give
+// up on the sets that follow. Also mixtures: the N inserted sets cycle through all four kinds.
+func manySpace(v9 bool, tier string) mck.Space {
+	e := mkC09(v9)
+	body := []byte{0x71, 0x72, 0x73, 0x74, 0x75, 0x76, 0x77, 0x78}
+	lo := uint16(4)
+	if v9 {
+		lo = 2
+	}
+	kinds := []perturbation{
+		{"reserved-id", ref.Set{Kind: ref.SetRaw, RawID: lo, RawBody: body}, false},
+		{"unknown-template", ref.Set{Kind: ref.SetRaw, RawID: 999, RawBody: body}, false},
+		{"absent-element-tpl-310", ref.Set{Kind: ref.SetRaw, RawID: 310, RawBody: body}, false},
+		{"absent-element-tpl-311", ref.Set{Kind: ref.SetRaw, RawID: 311, RawBody: body}, false},
+		{"empty-body-unknown-template", ref.Set{Kind: ref.SetRaw, RawID: 65535, RawBody: nil}, false},
+		{"mixture", ref.Set{}, false},
+	}
+	counts := []int{2, 3, 4, 7, 8, 9, 15, 16, 17, 18, 31, 32, 33, 63, 64, 65, 100, 127, 128, 129, 255, 256, 257, 1000}
+	if tier == "thorough" {
+		counts = nil
+		for n := 2; n <= 300; n++ {
+			counts = append(counts, n)
+		}
+		counts = append(counts, 1000, 4000)
+	}
+	var all []ref.Template
+	for _, id := range []uint16{300, 301, 302, 303, 310, 311} {
+		all = append(all, e.tpls[id])
+	}
+	var tsets []ref.Set
+	var plain []ref.Template
+	for _, t := range all {
+		if t.Options {
+			s := ref.Set{Kind: ref.SetTemplates, Templates: []ref.Template{t}}
+			if v9 {
+				s.Pad = (4 - (6+4*len(t.All()))%4) % 4
+			}
+			tsets = append(tsets, s)
+		} else {
+			plain = append(plain, t)
+		}
+	}
+	tsets = append([]ref.Set{{Kind: ref.SetTemplates, Templates: plain}}, tsets...)
+	dims := mck.Radix{uint64(len(e.bases)), 4, uint64(len(kinds)), uint64(len(counts))}
+	name := "ipfix"
+	if v9 {
+		name = "v9"
+	}
+	return mck.FuncSpace{N: dims.Size(), F: func(idx uint64, c *mck.Ctx) {
+		d := dims.Digits(idx)
+		base := e.bases[d[0]]
+		pos := d[1]
+		if pos > len(base) {
+			c.Skip()
+			return
+		}
+		n := counts[d[3]]
+		var ins []ref.Set
+		for i := 0; i < n; i++ {
+			k := kinds[d[2]]
+			if k.kind == "mixture" {
+				k = kinds[i%(len(kinds)-1)]
+			}
+			ins = append(ins, k.set)
+		}
+		sets := append(append(append([]ref.Set{}, base[:pos]...), ins...), base[pos:]...)
+		caches := flowh.NewCaches()
+		addr := flowh.AddrV6
+		flowh.Decode(v9, addr, (&ref.Msg{V9: v9, Hdr: hdrFor(v9, 6), Sets: tsets}).Encode(e.tpls), caches)
+		m := &ref.Msg{V9: v9, Hdr: hdrFor(v9, 3), Sets: sets}
+		wire := m.Encode(e.tpls)
+		if len(wire) > 65000 {
+			c.Skip()
+			return
+		}
+		want := (&ref.Msg{V9: v9, Sets: base}).Expected(e.tpls)
+		descF := func() interface{} {
+			return map[string]interface{}{"desc": fmt.Sprintf("%d x %s inserted at set position %d", n, kinds[d[2]].kind, pos), "base": d[0], "v9": v9, "wire_octets": len(wire), "expected": flowh.DescribeRecords(want)}
+		}
+		c.SetCase(descF)
+		full := flowh.Decode(v9, addr, wire, caches)
+		c.Nontrivial(mck.Hash64(wire))
+		if cls, msg := flowh.CompareRecords(full.Records, want); cls != "" {
+			dd := descF().(map[string]interface{})
+			dd["got"] = flowh.DescribeRecords(full.Records)
+			dd["err"] = fmt.Sprint(full.Err)
+			c.Violation(name+":many:"+kinds[d[2]].kind+":"+cls, fmt.Sprintf("records of the other sets changed after %d undecodable sets: %s", n, msg), dd)
+			return
+		}
+		c.Outcome("many:" + kinds[d[2]].kind)
+		if idx%997 == 0 {
+			c.Sample(descF)
+		}
 	}}
 }
